@@ -422,6 +422,14 @@ func Generate(seed uint64, prop, tier string) *Plan {
 				}
 				up.Ops = append(up.Ops, op)
 			}
+			if ctlHeavy && r.Chance(1, 2) {
+				// the same calls once the shutdown has completed
+				up.Ops = append(up.Ops, UserOp{K: "await-stop"})
+				for j := r.Range(1, 4); j > 0; j-- {
+					k := []string{"validate", "countx", "dup", "duplistener", "register-none", "stopctx", "stopctx"}[r.Intn(7)]
+					up.Ops = append(up.Ops, UserOp{K: k, N: r.Intn(3)})
+				}
+			}
 			p.Users = append(p.Users, up)
 		}
 	}
